@@ -33,8 +33,11 @@ def make_table(rng, tmp, idx):
             missing = rng.choice([-99, -99, 0])
             for k in rng.sample(range(n), rng.randrange(1, max(2, n // 3))):
                 vals[k] = missing
+            if not integer and rng.random() < 0.5:
+                # a valid value very close to the marker: it is data, not a missing cell
+                vals[rng.randrange(n)] = rng.choice([-98.9995, -99.0005]) if missing == -99 else rng.choice([4e-9, -4e-9])
         cols.append(("col%d" % j, integer, vals, missing))
-    path = "table%d.csv" % idx
+    path = "table%d.csv" % (idx % 5)          # later models rewrite the files of earlier ones: each model reads what its file holds now
     with open(os.path.join(tmp, path), "w") as f:
         f.write(",".join(c[0] for c in cols) + "\n")
         for i in range(n):
@@ -86,7 +89,51 @@ def gen_model(rng, tmp, idx, depth):
     if rng.random() < 0.7:
         outs = rng.sample(nonfuzzy + fuzzy, min(len(nonfuzzy + fuzzy), rng.randrange(1, 4)))
         cmds.append(("Out", "EEMSWrite", [("OutFileName", "out%d.csv" % idx), ("OutFieldNames", [Name(x) for x in outs])]))
-    return cmds
+    return cmds, path, cols
+
+
+def check_reads(ctx, rec, cmds, cols, desc):
+    """every EEMSRead of the model returned its column of the file as it is now: the numbers in row order, missing exactly at the cells equal to the marker"""
+    by_name = {"R_" + c[0]: c for c in cols}
+    for cname, rname, params, ins, (st, out) in rec.calls:
+        if cname != "EEMSRead" or rname not in by_name or st != "ok":
+            continue
+        _, integer, vals, missing = by_name[rname]
+        ctx.count("reader_results_checked")
+        want_mask = [missing is not None and v == missing for v in vals]
+        got_mask = numpy.ma.getmaskarray(out).tolist()
+        got = numpy.ma.getdata(out).tolist()
+        if len(got) != len(vals) or got_mask != want_mask:
+            ctx.fail("EEMSRead %s of the model returned missing cells %r; the file holds %r with marker %r" % (rname, got_mask, vals, missing), desc)
+            return
+        bad = [(g, v) for g, v, m in zip(got, vals, want_mask) if not m and float(g) != float(v)]
+        if bad:
+            ctx.fail("EEMSRead %s of the model returned %r where the file holds %r" % ((rname,) + bad[0]), desc)
+            return
+
+
+def deep_chain(ctx, tmp):
+    """a long model written in dependency order (450 accumulation steps through list inputs): evaluates like any other model"""
+    n = 450
+    with open(os.path.join(tmp, "chain.csv"), "w") as f:
+        f.write("a,b\n1,0.5\n2,0.25\n")
+    lines = ['Start = EEMSRead(InFileName = "chain.csv", InFieldName = a)', 'Inc = EEMSRead(InFileName = "chain.csv", InFieldName = b)']
+    prev = "Start"
+    for i in range(n):
+        lines.append("Step_%d = Sum(InFieldNames = [%s, Inc])" % (i, prev))
+        prev = "Step_%d" % i
+    src = "\n".join(lines) + "\n"
+    out = run_real(src, tmp)
+    ctx.case("deep-chain %d" % n, sample=None)
+    ctx.count("deep_chain_models")
+    desc = {"source": src[:300] + " ... (%d steps in dependency order)" % n}
+    if out["status"] != "ok":
+        ctx.fail("a model of %d accumulation steps written in dependency order fails: %s" % (n, out["status"]), desc)
+    else:
+        got = out["results"].get(prev)
+        want = [1 + n * 0.5, 2 + n * 0.25]
+        if got is None or got[3] != want:
+            ctx.fail("the last step of the %d-step model is %r, expected %r" % (n, got and got[3], want), desc)
 
 
 class Recording(object):
@@ -201,7 +248,7 @@ def run(ctx):
     base, classes = progrun.library_classes(LIBS)
     lines, metas = [], []
     for i in range(ctx.budget(30, 600)):
-        cmds = gen_model(rng, tmp, i, rng.randrange(3, 14))
+        cmds, table_path, cols = gen_model(rng, tmp, i, rng.randrange(3, 14))
         names = [c[0] for c in cmds]
         sc = Scenario(list(cmds), wd=tmp, libs=LIBS)
         rec = Recording()
@@ -223,6 +270,7 @@ def run(ctx):
                 "MissingParameters", "NoSuchParameter", "CommandDoesNotExist", "DuplicateResult", "ResultDoesNotExist", "ParameterNotValid",
                 "ResultTypeNotValid", "ResultIsFuzzy", "ResultNotFuzzy", "PathDoesNotExist", "InvalidRelativePath", "RecursiveModelStructure"):
             ctx.fail("well-formed, well-typed model rejected: %s" % ref["status"], desc)
+        check_reads(ctx, rec, cmds, cols, desc)
         # every argument written in the file reaches the body with its value (an argument equal to 0 or "" is still an argument)
         for rname, cname, args in cmds:
             kw = rec.kwargs.get(rname)
@@ -291,6 +339,7 @@ def run(ctx):
             ctx.count("consumer_twins")
             if d:
                 ctx.fail("results change when other commands also consume intermediate results: %s" % d, {"source": sc.source, "with_consumers": Scenario(extra, wd=tmp, libs=LIBS).source})
+    deep_chain(ctx, tmp)
     answers = model.ask(lines)
     # independent reference definitions (exact arithmetic, written without looking at the model): they decide, on the implementation, whether a
     # command's result inside a running program equals the mathematical evaluation of its inputs
